@@ -1,12 +1,16 @@
 package transaction
 
 import (
+	"sync"
+
 	"github.com/glebziz/containers/omap"
 
 	"github.com/glebziz/fs_db/internal/model"
 )
 
 type Repo struct {
+	// m guards iteration over storage against concurrent Store/Delete.
+	m       sync.RWMutex
 	storage *omap.OMap[string, model.Transaction]
 }
 
